@@ -176,6 +176,8 @@ class BaseCurve(Intface_BaseCurve):
             raise ValueError
         if not isinstance(other, self.__class__):
             copied = copy(self)
+            if isinstance(other, (int, np.integer)):
+                other = Fraction(int(other))  # int / int would be a float
             copied.ctrlpoints = [point / other for point in copied.ctrlpoints]
             return copied
         if self.knotvector.limits != other.knotvector.limits:
@@ -212,6 +214,8 @@ class BaseCurve(Intface_BaseCurve):
         if self.weights is None:
             newcurve = self.__class__(tuple(self.knotvector))
             newcurve.weights = [copy(point) for point in self.ctrlpoints]
+            if isinstance(other, (int, np.integer)):
+                other = Fraction(int(other))  # int / int would be a float
             newcurve.ctrlpoints = [other / w for w in newcurve.weights]
             return newcurve
         num, den = self.fraction()
